@@ -55,6 +55,17 @@ Section Gradient.
   Definition rintT (x : T) : T := ofZ OP (rintZ OP x).                                            (* np.rint, as a float *)
   Definition clipF (v lo hi : T) : T := fmin OP (fmax OP v lo) hi.                                (* np.clip on floats *)
 
+  (* np.gradient along one axis of length n (unit spacing, edge_order 1): central differences, one-sided at the two ends *)
+  Definition np_gradient1 (n : Z) (f : Z -> T) (i : Z) : T :=
+    if i =? 0 then sub OP (f 1) (f 0)
+    else if i =? n - 1 then sub OP (f (n - 1)) (f (n - 2))
+    else div OP (sub OP (f (i + 1)) (f (i - 1))) (ofZ OP 2).
+  (* _get_coordinates_in_same_projection for an n_l x n_p source: np.gradient(src_x, axis=[0, 1]), np.gradient(src_y, axis=[0, 1]) *)
+  Definition fields_of_coords (n_l n_p : Z) (sx sy : Z -> Z -> T) : fields T :=
+    mk_fields sx sy
+      (fun l p => np_gradient1 n_l (fun l' => sx l' p) l) (fun l p => np_gradient1 n_p (fun p' => sx l p') p)
+      (fun l p => np_gradient1 n_l (fun l' => sy l' p) l) (fun l p => np_gradient1 n_p (fun p' => sy l p') p).
+
   (* ---------------- the three kernels [fun] ---------------- *)
   (* indices_xy: res[0] = dp + p0 (x), res[1] = dl + l0 (y) *)
   Definition idx_kern (l0 p0 : Z) (dl dp : T) : T * T := (add OP dp (ofZ OP p0), add OP dl (ofZ OP l0)).
